@@ -219,7 +219,7 @@ class Interp(object):
             if k.arg not in frame and d is not None:
                 frame[k.arg] = self.const_default(d, func.module)
         if a.kwarg:
-            frame[a.kwarg.arg] = ("kwargs", tuple(sorted(kw.items(), key=lambda x: x[0])))
+            frame[a.kwarg.arg] = st.alloc(HObj("dict", kind="dict", items=sorted(kw.items(), key=lambda x: x[0]), label="**kwargs"))
             kw = {}
         if kw:
             raise Unsupported("unexpected kwargs %s calling %s" % (sorted(kw), func.fullname))
@@ -856,8 +856,8 @@ class Interp(object):
         raise Unsupported("while loop at %s" % self.loc(node))
 
     def s_FunctionDef(self, st, node):
-        # nested function: a closure value
-        st.frames[-1][node.name] = ("closure", node.name)
+        # nested function: a closure object (attributes can be attached to it)
+        st.frames[-1][node.name] = st.alloc(HObj("function", {"__name__": node.name}, kind="closure", label="closure " + node.name))
         return [(st, "next", None)]
 
     def s_ClassDef(self, st, node):
